@@ -241,7 +241,7 @@ class DbSuite:
             self.stats["steps_refined"] = nsteps
         # the remove_obsolete_files model judges every observed directory
         if gcfacts:
-            gv = lib.run_sharded(lib.DRIVER, "gccheck", ["g%d %s" % (n, x[2].split("#", 1)[1]) for n, x in enumerate(gcfacts) if "#" in x[2]], workdir, tag + "g")
+            gv = lib.run_sharded(lib.DRIVER, "gccheck", ["g%d %s" % (n, x[2].split("#")[1]) for n, x in enumerate(gcfacts) if "#" in x[2]], workdir, tag + "g")
             for n, (c, i, a) in enumerate(gcfacts):
                 v = gv.get("g%d" % n, "")
                 verdict = v.split(" ", 1)[1] if " " in v else v
@@ -295,15 +295,17 @@ class DbSuite:
 
 
 def leftover_after_iterator_release(a):
-    """KNOWN FINDING obsolete-tables-after-iterator-release: the only surplus files are table files,
-    nothing is missing, only the current version is linked, an iterator has been released and
-    remove_obsolete_files has not run since (the harness compares the file system's count of
-    directory listings at the release with the count now): the tables of the version the iterator
-    pinned stay until the next flush, compaction or reopen collects them."""
+    """KNOWN FINDING obsolete-tables-after-iterator-release (wider than its name: any last holder of
+    an old version, an iterator or a read in flight while a compaction collected garbage): the
+    only surplus files are table files, nothing is missing, only the current version is linked, and
+    ONE MORE run of remove_obsolete_files (the harness triggers it through a hook once the
+    directory is found inexact) makes the directory exact. A leak that survives a collection with
+    nothing pinned is not this finding."""
     import re
-    verdict, _, facts = a.partition("#")
+    parts = a.split("#")
+    verdict = parts[0]
     m = re.fullmatch(r"extra\[([^\]]*)\]missing\[\]cur\[man=\d+;wal=\d+;live=1\]", verdict)
-    if not m or not facts.endswith("R[1]"):
+    if not m or parts[-1] != "AFTERGC:exact":
         return False
     names = [x for x in m.group(1).split(";") if x]
     return bool(names) and all(re.fullmatch(r"data/\d+\.rdb", n) for n in names)
